@@ -145,19 +145,16 @@ variable {ε : Type}
 instances and deliveries of any pending message in any order, with or without removal (delays,
 re-ordering across and within links, duplication, re-delivery), once nothing is pending all instances
 hold the same status — same active runs at the same positions, same finished runs — for every run key
-of a known pattern.
-
-The step of the proof that is not yet a Lean theorem is `LocalIsJoin` (local processing changes a key's
-status exactly to the join with what its notification announces); it is an explicit hypothesis here and
-is checked on every local decider call of every scenario by the correspondence harness
-(oracle `local-is-join` in harness/cluster_suite.py).  Remote steps are covered by `remote_is_join`. -/
-theorem cluster_convergence_partial {n : Nat} (c : Cfg ε) (hc : c.caching = true) (hns : NoSing c)
-    (hLJ : LocalIsJoin c) (steps : List (CStep n ε)) (cs : CState n ε)
+of a known pattern.  Local steps are joins with their own notification (`local_is_join`, proved on the
+literal `localStep` under the table well-formedness invariant that every step preserves), remote steps are
+joins with the message (`remote_is_join`); the rest is the network invariant. -/
+theorem cluster_convergence {n : Nat} (c : Cfg ε) (hc : c.caching = true) (hns : NoSing c)
+    (steps : List (CStep n ε)) (cs : CState n ε)
     (hrun : crun c (cinit n ε) steps = some cs)
     (hquiet : ∀ i j, i ≠ j → cs.flight i j = [])
     (ph pa id : String) (hk : (c.getPattern ph pa).isSome = true) (i j : Fin n) :
     abs (cs.node i) ph pa id = abs (cs.node j) ph pa id := by
-  obtain ⟨ns, hR, hI⟩ := sim_run c hc hns hLJ ph pa id hk steps (cinit n ε) cs (Bobo.Net.init n)
+  obtain ⟨ns, hR, hI⟩ := sim_run c hc hns ph pa id hk steps (cinit n ε) cs (Bobo.Net.init n)
     (sim_init ph pa id) Bobo.Net.inv_init hrun
   have hq : Bobo.Net.Quiescent ns := by
     intro a b hab
@@ -166,12 +163,20 @@ theorem cluster_convergence_partial {n : Nat} (c : Cfg ε) (hc : c.caching = tru
   rw [← hR.know i, ← hR.know j, Bobo.Net.quiescent_know_eq ns hI hq i, Bobo.Net.quiescent_know_eq ns hI hq j]
 
 /-- a run completed anywhere is completed everywhere at quiescence (each instance reported it: C05). -/
-theorem completed_everywhere_partial {n : Nat} (c : Cfg ε) (hc : c.caching = true) (hns : NoSing c)
-    (hLJ : LocalIsJoin c) (steps : List (CStep n ε)) (cs : CState n ε)
+theorem completed_everywhere {n : Nat} (c : Cfg ε) (hc : c.caching = true) (hns : NoSing c)
+    (steps : List (CStep n ε)) (cs : CState n ε)
     (hrun : crun c (cinit n ε) steps = some cs)
     (hquiet : ∀ i j, i ≠ j → cs.flight i j = [])
     (ph pa id : String) (hk : (c.getPattern ph pa).isSome = true) (i j : Fin n)
     (hdone : abs (cs.node i) ph pa id = completed) : abs (cs.node j) ph pa id = completed := by
-  rw [← cluster_convergence_partial c hc hns hLJ steps cs hrun hquiet ph pa id hk i j]; exact hdone
+  rw [← cluster_convergence c hc hns steps cs hrun hquiet ph pa id hk i j]; exact hdone
+
+/-- local processing announces exactly what it changes (re-export of the lemma the cluster theorem rests on). -/
+theorem local_step_is_join (c : Cfg ε) (hc : c.caching = true) (s s' : DState ε) (e : ε) (nt : Notif ε) (ch : Bool)
+    (hwf : TableWF s.table) (hstep : localStep c s e = some (s', nt, ch))
+    (hevC : s.cacheC.length + nt.completed.length ≤ c.maxCache)
+    (hevH : s.cacheH.length + nt.halted.length ≤ c.maxCache) (ph pa id : String) :
+    abs s' ph pa id = join (abs s ph pa id) (absMsg nt.completed nt.halted nt.updated ph pa id) :=
+  (local_is_join c hc s s' e nt ch hwf hstep hevC hevH).2 ph pa id
 
 end Bobo.ClusterD
